@@ -601,6 +601,20 @@ pub fn remove_race<F: Fl, const KIND: u8, const OUTER: usize>(c: &LifeCfg) {
         c.force_site == 0 || sched::st().site_no < c.force_site,
         "not in forced-site mode, or the forced site lies past the end of the outer operation"
     );
+    // the stream list itself: a stream that a lost update dropped from (or left in) the list cannot be seen
+    // by the probe below as long as all streams stand at the same position
+    {
+        let expect: usize = match KIND {
+            1 | 4 => 1,
+            2 => 2,
+            _ => 3,
+        };
+        let v = F::queue_view(unsafe { (*wp::<F>()).tx[0].as_ref().unwrap() });
+        assert!(
+            v.streams == expect,
+            "C11: after two concurrent changes of the stream list the list does not hold exactly the subscribed streams (a stream no longer limits the sender, or a removed one still does)"
+        );
+    }
     if KIND == 4 {
         finish::<F>(&Finish {
             n: c.n,
